@@ -105,6 +105,7 @@ type behaviourIn struct {
 	Cfg0     sumworld.HeadLabel `json:"cfg0"`
 	ClientOf map[string]string  `json:"clientOf"`
 	Skip     []int              `json:"skip"`
+	Disk0    bool               `json:"disk0"` // the cache starts with every complete tile of timeline A
 	Ops      []histOp           `json:"ops"`
 }
 
@@ -227,6 +228,25 @@ func (o *scriptOps) respBytes(r *respLabel) ([]byte, error) {
 		return []byte("not a record"), nil
 	}
 	return nil, errors.New("scripted network error")
+}
+
+// fillDiskWithFullTiles: the cache as a client that went to the end of timeline A left it, minus the partial tiles
+func (o *scriptOps) fillDiskWithFullTiles() {
+	full := 1 << uint(o.w.H)
+	for level := 0; level < 64; level++ {
+		any := false
+		for tn := int64(0); ; tn++ {
+			d := o.w.TileData("A", level, tn, full)
+			if d == nil {
+				break
+			}
+			any = true
+			o.disk[absFile{Kind: "tile", L: level, N: tn, W: full}.String()] = d
+		}
+		if !any {
+			break
+		}
+	}
 }
 
 func (o *scriptOps) tileBytes(f absFile, lab *tileLab) ([]byte, error) {
@@ -696,6 +716,9 @@ func (w *clientWorld) Finish() []core.Violation { return nil }
 func replayBehaviour(c *core.Case, in *behaviourIn) ([]core.Violation, bool) {
 	w := sumworld.New(in.H, in.Prefix, in.SizeA, in.SizeB)
 	ops := newScriptOps(w, in.Cfg0, in.Served)
+	if in.Disk0 {
+		ops.fillDiskWithFullTiles()
+	}
 	nfault := 0
 	for _, h := range in.Ops {
 		switch h.Op {
